@@ -19,7 +19,11 @@ LEVEL_TEXT = ("Coq theorems over the code regenerated from the current source --
               "agree; for every threshold (0 and negatives included) and operator the event tables use the given threshold; for every list "
               "of pairs each count equals direct counting, tp+tn+fp+fn = number of pairs valid in both, and sums over groups add up. "
               "Proof is the right level because the decisive inputs are ties with the threshold / tolerance and the threshold value 0, "
-              "which no sampled input hits; the array plumbing around the kernels is tied by a correspondence check on every run.")
+              "which no sampled input hits; the array plumbing around the kernels is tied by a correspondence check on every run. The views of a "
+              "manager (round 4): for a counts dict in any key order the regenerated table reports each count under its own label; the regenerated "
+              "format_table is right for the key order the library builds, and for any order iff it reads by label (it reads by position: known "
+              "finding format-table-by-position, proved as a refutation); the translator refuses any method other than the constructors that "
+              "writes the manager's state.")
 LEVEL_NOTE = ("trusted: the custom translator sites of tools/sites/c08.py + Xval/C08_aux semantics (validated by correspondence on the full tie "
               "grid), the hand model of broadcasting against the threshold dimension, squeeze, mean and NaN-skipping sums (validated by "
               "correspondence); binary64 rounding of `comparison +- abs_tolerance` is not modelled (dyadic inputs only)")
@@ -33,7 +37,12 @@ RULE = ("kernel: the full grid of 12 mode spellings x tolerances {None,0,1/4,1/2
         "when at least one non-NaN cell exists; precision stream: float32 / float16 / float64 data whose cells sit on the threshold rounded to "
         "the storage type, one unit in the last place and 1e-12 ... 0.4 either side of 1-3 decimal thresholds those types cannot hold (0.7, 0.1, "
         "0.001, 1/3, 0.3 next to 0.1+0.2, ...), tolerances None/0/1e-8/1e-6/1e-3/1/4; contingency: the same near-threshold values around the "
-        "threshold in force in 40% of the cases, non-dyadic event thresholds including the signature default 0.001")
+        "threshold in force in 40% of the cases, non-dyadic event thresholds including the signature default 0.001; round 4: +-inf as valid "
+        "forecast / observation values (12%), forecast / observation stored as (un)signed 8-64 bit integers (10% each), event tables stored as "
+        "bool / uint8-64 / int8-64 / float16-32, independently for fcst and obs; BasicContingencyManager from a counts dict whose five keys are "
+        "in a random permutation (0-d and 1-2-d counts, float and integer) read through get_counts / get_table / format_table; call sequences "
+        "of 2-4 valid transform requests on ONE BinaryContingencyManager with its own views checked before and after each; Datasets of 2-3 "
+        "variables whose NaN positions differ")
 ASSUMPTIONS = ["inputs of the correspondence are dyadic rationals, so `comparison +- abs_tolerance` is exact in binary64; non-dyadic inputs are tied to "
                "the model only where nothing is added to the threshold (tolerance None / 0, event operators)",
                "with a non-zero tolerance on non-dyadic inputs the exact oracle leaves a cell undecided when its distance from the threshold is within "
